@@ -406,7 +406,7 @@ func (generator *ConverterGenerator) argumentForType(context Context, converter 
 	possibleBuilders := context.BuildersForType(typeDef)
 	// hack to use the runtime to convert panels
 	// TODO: find a better way to handle this case (ie: something more generic than hardcoding it :/)
-	if len(possibleBuilders) > 1 && strings.EqualFold(possibleBuilders[0].Package, "dashboard") && strings.EqualFold("panel", possibleBuilders[0].For.Name) {
+	if len(possibleBuilders) > 1 && strings.EqualFold(possibleBuilders[0].Package, "dashboard") && strings.EqualFold("panel", possibleBuilders[0].For.Name) && possibleBuilders[0].For.Type.IsStruct() {
 		typeField, _ := possibleBuilders[0].For.Type.Struct.FieldByName("type")
 
 		return ArgumentMapping{
